@@ -5,6 +5,7 @@ import (
 	"fmt"
 	"hash/fnv"
 	"iter"
+	"math"
 	"sort"
 
 	art "github.com/Clement-Jean/go-art"
@@ -137,9 +138,11 @@ func (d *Driver[K, V]) Seq(name string, a, b, n int) iter.Seq2[int, int] {
 	case "Backward":
 		s = d.tree.Backward()
 	case "TopK":
-		s = d.tree.TopK(uint(n))
+		s = d.tree.TopK(hugeN(n))
 	case "BottomK":
-		s = d.tree.BottomK(uint(n))
+		s = d.tree.BottomK(hugeN(n))
+	case "RangeAny": // any tree kind: Range as a sequence whose content is not specified (collation), for C14 only
+		s = d.tree.Range(d.key(a), d.key(b))
 	case "Range":
 		if b == 0 { // open end: the empty key
 			e, _ := d.emptyKey()
@@ -211,6 +214,17 @@ func (d *Driver[K, V]) ValID(v any) int {
 		return -1
 	}
 	return d.valID(vv)
+}
+
+// hugeN: n >= 0 is itself; -1 is the largest uint, -2 is the smallest value that does not fit an int.
+func hugeN(n int) uint {
+	switch n {
+	case -1:
+		return math.MaxUint
+	case -2:
+		return uint(math.MaxInt) + 1
+	}
+	return uint(n)
 }
 
 // finish sorts nothing: keys must already be in oracle order and distinct.
